@@ -2,7 +2,7 @@
 from lib.prov import Prov, show, is_call, subterms, calls_in
 from lib.guards import outcomes, conditions
 from lib.facts import callee_path
-from lib.veclen import VecLen, VEC_REMOVE, INDEX
+from lib.veclen import VecLen, VEC_REMOVE, INDEX, SPLIT_OFF
 from lib.callgraph import CallGraph
 from spec import panics as P
 
@@ -124,7 +124,7 @@ def check(ctx):
                 kinds["benign-forwarder"] += 1
                 continue
             key = (f.key, name)
-            if name in (VEC_REMOVE, INDEX):
+            if name in (VEC_REMOVE, INDEX, SPLIT_OFF):
                 vl = vl or VecLen(f)
                 pv = pv or Prov(f)
                 obs = [o for o in vl.obligations if o["bb"] == bi]
@@ -288,8 +288,72 @@ def _reach(cg, key, cache):
     return cache[key]
 
 
-ALLOWED_ITERS = ("<alloc::vec::into_iter::IntoIter<", "<core::iter::adapters::rev::Rev<core::ops::range::Range<usize>>", "<alloc::collections::btree::set::IntoIter<",
-                 "<alloc::collections::btree::set::IntoIter<", "<core::ops::range::Range<usize>")
+# iterators that end: finite sources, and adapters that keep a finite iterator finite (std's documented behaviour)
+FINITE_SOURCES = ("alloc::vec::into_iter::IntoIter", "alloc::vec::drain::Drain", "core::slice::iter::Iter", "core::slice::iter::IterMut",
+                  "alloc::collections::btree::set::IntoIter", "alloc::collections::btree::set::Iter",
+                  "alloc::collections::btree::map::IntoIter", "alloc::collections::btree::map::Iter",
+                  "core::ops::range::Range", "core::ops::range::RangeInclusive", "core::option::IntoIter", "core::option::Iter",
+                  "core::array::iter::IntoIter", "core::iter::sources::once::Once", "core::iter::sources::empty::Empty",
+                  "core::str::iter::Chars", "core::str::iter::Bytes")
+FINITE_ADAPTERS = {"core::iter::adapters::rev::Rev": 1, "core::iter::adapters::map::Map": 1, "core::iter::adapters::enumerate::Enumerate": 1,
+                   "core::iter::adapters::filter::Filter": 1, "core::iter::adapters::filter_map::FilterMap": 1,
+                   "core::iter::adapters::cloned::Cloned": 1, "core::iter::adapters::copied::Copied": 1,
+                   "core::iter::adapters::skip::Skip": 1, "core::iter::adapters::take::Take": 1, "core::iter::adapters::peekable::Peekable": 1,
+                   "core::iter::adapters::step_by::StepBy": 1, "core::iter::adapters::zip::Zip": 1,     # Zip ends with its FIRST to end
+                   "core::iter::adapters::chain::Chain": 2, "core::iter::adapters::fuse::Fuse": 1,
+                   "core::iter::adapters::inspect::Inspect": 1, "core::iter::adapters::take_while::TakeWhile": 1,
+                   "core::iter::adapters::skip_while::SkipWhile": 1, "core::iter::adapters::map_while::MapWhile": 1}
+
+
+def _split_generics(ty):
+    """'a::B<x, y<z>>' -> ('a::B', ['x', 'y<z>'])"""
+    i = ty.find("<")
+    if i < 0 or not ty.endswith(">"):
+        return ty, []
+    head, body = ty[:i], ty[i + 1:-1]
+    args, depth, cur = [], 0, ""
+    for ch in body:
+        if ch in "<([":
+            depth += 1
+        elif ch in ">)]":
+            depth -= 1
+        if ch == "," and depth == 0:
+            args.append(cur.strip())
+            cur = ""
+        else:
+            cur += ch
+    if cur.strip():
+        args.append(cur.strip())
+    return head, args
+
+
+def finite_iterator_type(ty):
+    ty = ty.strip()
+    while ty.startswith("&mut "):
+        ty = ty[5:]
+    head, args = _split_generics(ty)
+    if head in FINITE_SOURCES:
+        if head.startswith("core::ops::range::Range"):
+            return bool(args) and args[0] in ("usize", "u8", "u16", "u32", "u64", "i8", "i16", "i32", "i64", "isize")
+        return True
+    n = FINITE_ADAPTERS.get(head)
+    if n:
+        return len(args) >= n and all(finite_iterator_type(a) for a in args[:n])
+    return False
+
+
+def _iter_self_type(full):
+    """'<T as core::iter::traits::iterator::Iterator>::next' -> 'T'"""
+    if full.startswith("<") and " as " in full:
+        depth = 0
+        for i, ch in enumerate(full):
+            if ch == "<":
+                depth += 1
+            elif ch == ">":
+                depth -= 1
+            if depth == 1 and full.startswith(" as ", i):
+                return full[1:i]
+    return full
 
 
 def _loop_ok(f, header, body):
@@ -304,7 +368,7 @@ def _loop_ok(f, header, body):
     for nb in nexts:
         t = f.blocks[nb]["term"]
         full = (t["callee"].get("resolved") or {}).get("full") or t["callee"]["full"]
-        if not full.startswith(ALLOWED_ITERS):
+        if not finite_iterator_type(_iter_self_type(full)):
             continue
         # next() executes on every iteration: it dominates every back-edge source
         back = [a for a, h in f.cfg.back_edges() if h == header]
